@@ -43,9 +43,9 @@ class Sym:
         if isinstance(v, bool) or not isinstance(v, (int, float, Fraction, np.integer, np.floating)):
             raise NotSymbolic(f"cannot lift {v!r}")
         if isinstance(v, (float, np.floating)):
-            if float(v) != int(v):
-                return Sym({((f"<{float(v)!r}>", 1),): Fraction(1)})
-            v = int(v)
+            if v != v or v in (float("inf"), float("-inf")):
+                raise NotSymbolic(f"cannot lift {v!r}")
+            return Sym({(): Fraction(float(v))})  # floats are dyadic rationals: exact
         return Sym({(): Fraction(int(v))})
 
     def __add__(self, o):
